@@ -223,6 +223,8 @@ def make_value(kind: str, h: str):
         s = pd.concat([s, pd.Series([tag], index=['prov'])]) if s.dtype == object else s.rename(tag)
         return s
     if kind in ('gen', 'genlazy'):
+        if r.random() < 0.06:
+            return []       # a legitimately empty sequence (0-byte json-lines file); carries no provenance
         n = r.choice([0, 1, 2, 5]) if not big else r.choice([400, 1001, 2300])
         return [{'h': tag, 'i': i, 'v': gen_json(r, 2)} if r.random() < 0.8 else gen_json(r, 1) for i in range(n)] + [tag]
     if kind in ('dir', 'cont'):
